@@ -65,7 +65,7 @@ def STree.upTo (reg : Registry) (nil : Bool) (ns : String) : STree → PyObj →
               if co.numOut != 2 && co.numOut != 3 then .error .runtime
               else if i.data != .md co.md then .error .value
               else match co.children with
-                | Option.none => .error .runtime
+                | Option.none => .error .type_
                 | some xs => if xs.length != cs.length then .error .value else STree.upToL reg nil ns cs xs
 def STree.upToL (reg : Registry) (nil : Bool) (ns : String) :
     List STree → List PyObj → Except Err (List PyObj)
